@@ -6,9 +6,10 @@ Import ListNotations.
 Open Scope list_scope.
 Open Scope nat_scope.
 
-(* graph on nodes 0..n-1 (networkx node order of make_graph / disjoint_union_all) *)
-Definition mkg (labs cls : list nat) (es : list edge) : graph :=
-  mkGraph (seq 0 (length labs)) (fun i => nth i labs 0) (fun i => nth i cls 0) es.
+(* graph with its nodes in networkx iteration order (0..n-1 for make_graph / disjoint_union_all, a
+   permutation after Species.reorder_atoms); labels / classes are indexed by node name *)
+Definition mkg (nodes labs cls : list nat) (es : list edge) : graph :=
+  mkGraph nodes (fun i => nth i labs 0) (fun i => nth i cls 0) es.
 
 Definition canon (es : list edge) : list edge := sort_edges (map norm es).
 Fixpoint edges_eqb (a b : list edge) : bool :=
@@ -99,12 +100,13 @@ Proof. unfold get_bond_rearrangs, finish. destruct (enumerate iso_b mv r p n); r
 (* one case: reactant (labels, edges), product (labels, edges), maximal-valence table, the logged
    isomorphism answers, the pruning oracles of the implementation; expected list before pruning and
    expected final results with skip_small_ring_tss = False / True *)
-Definition check_case (labs_r cls_r : list nat) (es_r : list edge) (labs_p cls_p : list nat) (es_p : list edge)
+Definition check_case (nodes_r labs_r cls_r : list nat) (es_r : list edge)
+           (nodes_p labs_p cls_p : list nat) (es_p : list edge)
            (mvt : list nat) (tbl : list (list edge * bool))
            (nlt : list (rearr * nat)) (ringt : list (rearr * list nat))
            (expect_pre expect_noskip expect_skip : outcome) : bool :=
-  let r := mkg labs_r cls_r es_r in
-  let p := mkg labs_p cls_p es_p in
+  let r := mkg nodes_r labs_r cls_r es_r in
+  let p := mkg nodes_p labs_p cls_p es_p in
   let iso := iso_tab tbl in
   let mv := mv_tab mvt in
   let pre := enumerate iso mv r p (length labs_p) in
@@ -118,16 +120,27 @@ Definition check_case (labs_r cls_r : list nat) (es_r : list edge) (labs_p cls_p
      end.
 
 (* pruning alone on implementation-supplied oracle values (also exercised on hand-made lists) *)
-Definition check_prune (labs_r : list nat) (es_r : list edge) (l : list rearr)
+Definition check_prune (nodes_r labs_r : list nat) (es_r : list edge) (l : list rearr)
            (nlt : list (rearr * nat)) (ringt : list (rearr * list nat)) (skip : bool)
            (expect : list rearr) : bool :=
-  rearrs_eqb (post (tab_nat nlt) (tab_list ringt) (elems_of (mkg labs_r [] es_r)) skip l) expect.
+  rearrs_eqb (post (tab_nat nlt) (tab_list ringt) (elems_of (mkg nodes_r labs_r [] es_r)) skip l) expect.
 
 (* strings (texts are passed as Coq string literals; they may contain raw newlines and tabs) *)
 Definition check_save (brs : list rearr) (text : string) : bool := String.eqb (save brs) text.
-Definition check_load (text : string) (expect : option (list rearr)) : bool :=
+(* expected: Some (inl brs) = parsed list; Some (inr e) = ValueError / negative index; *)
+Definition check_load (text : string) (expect : list rearr + lerr) : bool :=
   match load text, expect with
-  | Some a, Some b => rearrs_eqb a b
-  | None, None => true
+  | inl a, inl b => rearrs_eqb a b
+  | inr ValueErr, inr ValueErr => true
+  | inr NegIndex, inr NegIndex => true
+  | _, _ => false
+  end.
+(* get_bond_rearrangs with a pre-existing {name}_bond_rearrangs.txt: the file content is returned *)
+Definition check_cached (text : string) (expect : list rearr + lerr) : bool :=
+  match get_bond_rearrangs_cached (Some text) (fun _ _ => false) (fun _ => 0) (fun _ => 0) (fun _ => [])
+                                  false (mkg [] [] [] []) (mkg [] [] [] []) 0, expect with
+  | inl (Ok a), inl b => rearrs_eqb a b
+  | inr ValueErr, inr ValueErr => true
+  | inr NegIndex, inr NegIndex => true
   | _, _ => false
   end.
